@@ -26,7 +26,7 @@ Print Assumptions C36_volumes_roundtrip.
 
 (* postings of a v2 / bulk body: the decoded amount is the integer literal, and validation keeps it *)
 Theorem C36_posting_amount_exact : forall l n p q,
-  jfield "amount" l = Some (JNum n None) -> dec_posting (JObj l) = Ok p -> validate_posting p = Ok q -> vp_amt q = n.
+  jfield "amount" l = Some (AJNum n None) -> dec_posting (AJObj l) = Ok p -> validate_posting p = Ok q -> vp_amt q = n.
 Proof.
   intros l n p q H D V. pose proof (v2_posting_amount_exact l n p H D) as E.
   destruct (validate_keeps_amount p q V) as [E' _]. rewrite E in E'. injection E' as E'. symmetry. exact E'.
@@ -35,20 +35,20 @@ Print Assumptions C36_posting_amount_exact.
 
 (* v1 script variables {"asset": a, "amount": n}: exact for every n *)
 Theorem C36_v1_monetary_exact : forall m a n,
-  jfield "asset" m = Some (JStr a) -> jfield "amount" m = Some (JNum n None) -> v1_var (JObj m) = Ok (a ++ " " ++ zstr n).
+  jfield "asset" m = Some (AJStr a) -> jfield "amount" m = Some (AJNum n None) -> v1_var (AJObj m) = Ok (a ++ " " ++ zstr n).
 Proof. exact v1_monetary_exact. Qed.
 Print Assumptions C36_v1_monetary_exact.
 
 (* ScriptV1 (v2, bulk) variables with the amount as a decimal string: exact for every n *)
 Theorem C36_scriptv1_string_exact : forall m a n,
-  jfield "asset" m = Some (JStr a) -> jfield "amount" m = Some (JStr (zstr n)) -> scriptv1_var (JObj m) = Some (a ++ " " ++ zstr n).
+  jfield "asset" m = Some (AJStr a) -> jfield "amount" m = Some (AJStr (zstr n)) -> scriptv1_var (AJObj m) = Some (a ++ " " ++ zstr n).
 Proof. intros m a n. exact (scriptv1_string_exact m a (zstr n)). Qed.
 Print Assumptions C36_scriptv1_string_exact.
 
 (* partial: the JSON-number form is exact below 2^53 *)
 Theorem C36_scriptv1_number_partial : forall m a n,
   Z.abs n < 2 ^ 53 ->
-  jfield "asset" m = Some (JStr a) -> jfield "amount" m = Some (JNum n None) -> scriptv1_var (JObj m) = Some (a ++ " " ++ zstr n).
+  jfield "asset" m = Some (AJStr a) -> jfield "amount" m = Some (AJNum n None) -> scriptv1_var (AJObj m) = Some (a ++ " " ++ zstr n).
 Proof. exact scriptv1_number_exact_below_2_53. Qed.
 Print Assumptions C36_scriptv1_number_partial.
 
@@ -56,8 +56,8 @@ Print Assumptions C36_scriptv1_number_partial.
    (int() of an out-of-range float64 on amd64); replayed on the real code through POST /v2/{ledger}/transactions *)
 Theorem C36_refuted_float :
   exists n, 0 <= n /\
-    scriptv1_var (JObj [("asset", JStr "USD"); ("amount", JNum n None)]) <> Some ("USD " ++ zstr n) /\
-    decode_scriptv1 (JObj [("plain", JStr "p"); ("vars", JObj [("x", JObj [("asset", JStr "USD"); ("amount", JNum n None)])])])
+    scriptv1_var (AJObj [("asset", AJStr "USD"); ("amount", AJNum n None)]) <> Some ("USD " ++ zstr n) /\
+    decode_scriptv1 (AJObj [("plain", AJStr "p"); ("vars", AJObj [("x", AJObj [("asset", AJStr "USD"); ("amount", AJNum n None)])])])
       = Ok {| s_plain := "p"; s_template := ""; s_vars := [("x", "USD 9007199254740992")] |}.
 Proof. exists 9007199254740993. split; [discriminate|]. split; [vm_compute; discriminate|vm_compute; reflexivity]. Qed.
 Print Assumptions C36_refuted_float.
@@ -67,8 +67,8 @@ Example C36_example :
   zparse (zstr (2 ^ 64 + 1)) = Some 18446744073709551617 /\
   volumes_value (10 ^ 30, 2 ^ 64 + 1) = "(1000000000000000000000000000000, 18446744073709551617)" /\
   volumes_scan (volumes_value (1, 2)) = None /\           (* Scan is NOT the inverse of Value without PostgreSQL's normalisation *)
-  v1_var (JObj [("asset", JStr "USD"); ("amount", JNum (2 ^ 64 + 1) None)]) = Ok "USD 18446744073709551617" /\
-  scriptv1_var (JObj [("asset", JStr "USD"); ("amount", JNum (2 ^ 53 - 1) None)]) = Some "USD 9007199254740991" /\
-  scriptv1_var (JObj [("asset", JStr "USD"); ("amount", JNum (2 ^ 64 + 1) None)]) = Some "USD -9223372036854775808" /\
-  scriptv1_var (JNum (2 ^ 64 + 1) None) = Some "1.8446744073709552e+19".
+  v1_var (AJObj [("asset", AJStr "USD"); ("amount", AJNum (2 ^ 64 + 1) None)]) = Ok "USD 18446744073709551617" /\
+  scriptv1_var (AJObj [("asset", AJStr "USD"); ("amount", AJNum (2 ^ 53 - 1) None)]) = Some "USD 9007199254740991" /\
+  scriptv1_var (AJObj [("asset", AJStr "USD"); ("amount", AJNum (2 ^ 64 + 1) None)]) = Some "USD -9223372036854775808" /\
+  scriptv1_var (AJNum (2 ^ 64 + 1) None) = Some "1.8446744073709552e+19".
 Proof. repeat split; vm_compute; reflexivity. Qed.
